@@ -540,7 +540,7 @@ func (w *world) respond(tree int) {
 		Msg:            &onet.ResponseTree{TreeMarshal: tr.MakeTreeMarshal(), Roster: tr.Roster},
 	}
 	w.ovR.Process(env)
-	if state != 0 {
+	if state == 1 {
 		g := w.spare[tree]
 		if !g.WaitHit(wait) {
 			w.failed = "no flush after the tree arrived"
